@@ -64,4 +64,38 @@ def respStep (tables : List (String → List Bytes → Option HRes)) (sv : Serve
     let sv := Server.afterHandler sv id toks
     (sv, joinWith " " (canonical name toks))
 
+/-- one raw step returning tokens (no canonical rendering) -/
+def respToks (tables : List (String → List Bytes → Option HRes)) (sv : Server) (id : String) (now : Int)
+    (argv : List Bytes) : Server × List Tok :=
+  match argv with
+  | [] => (sv, [])
+  | nameB :: args =>
+    let name := String.fromUTF8! (ByteArray.mk (upper nameB).toArray)
+    let (sv, toks) : Server × List Tok :=
+      match lookup tables name args with
+      | none => (sv, [Tok.err 0])
+      | some (.direct ts) => (sv, ts)
+      | some .crash => (sv, [Tok.err 0])
+      | some (.exec b) => Server.execCommand sv id now none b
+    (Server.afterHandler sv id toks, toks)
+
+/-- `scanall`: follow the cursor from 0 until 0 comes back, as a client would -/
+def scanAll (tables : List (String → List Bytes → Option HRes)) (sv : Server) (id : String) (now : Int)
+    (template : List (Option Bytes)) : Nat → Bytes → Nat → List Bytes → Server × String
+  | 0, cursor, calls, elems =>
+    (sv, s!"calls={calls} n={elems.length} last={String.fromUTF8! (ByteArray.mk cursor.toArray)} elems=" ++
+      compact (joinWith "," ((elems.map Bytes.toHex).toArray.qsort (· < ·)).toList))
+  | fuel + 1, cursor, calls, elems =>
+    let argv := template.map fun a => a.getD cursor
+    let (sv, toks) := respToks tables sv id now argv
+    let calls := calls + 1
+    match toks with
+    | .arr 2 :: .bulk next :: .arr _ :: rest =>
+      let elems := elems ++ rest.filterMap fun t => match t with | .bulk b => some b | _ => none
+      if next = [48] ∨ calls ≥ 5000 then
+        (sv, s!"calls={calls} n={elems.length} last={String.fromUTF8! (ByteArray.mk next.toArray)} elems=" ++
+          compact (joinWith "," ((elems.map Bytes.toHex).toArray.qsort (· < ·)).toList))
+      else scanAll tables sv id now template fuel next calls elems
+    | _ => (sv, s!"calls={calls} !SHAPE " ++ joinWith " " (toks.map fmtTok))
+
 end NodisVerif.Driver
